@@ -16,7 +16,7 @@ checks_for() {
 [ "$1" = seeded ] || for f in mutants/*.diff; do
   n=$(basename $f .diff)
   for c in $(checks_for $n); do
-    out=$(LINES_SHOWN=1 tools/mutant.sh $f $c 2>&1 | head -1)
+    out=$(VERIF_SEED=${MATRIX_SEED:-1} LINES_SHOWN=1 tools/mutant.sh $f $c 2>&1 | head -1)
     rc=$(echo "$out" | sed -n 's/.* rc=\([0-9]*\) .*/\1/p')
     v=silent; [ "$rc" = 1 ] && v=CAUGHT; [ "$rc" = 2 ] && v=inconclusive
     echo "own    $n $c $v"
@@ -27,7 +27,7 @@ done
   own=${n%-*}
   extra=$(python3 -c "import json;print(' '.join(c for c in json.load(open('$d/meta.json')).get('caught_by_checks',[]) if c!='$own'))")
   for c in $own $extra; do
-    out=$(LINES_SHOWN=1 tools/mutant.sh $d/patch.diff $c 2>&1 | head -1)
+    out=$(VERIF_SEED=${MATRIX_SEED:-1} LINES_SHOWN=1 tools/mutant.sh $d/patch.diff $c 2>&1 | head -1)
     rc=$(echo "$out" | sed -n 's/.* rc=\([0-9]*\) .*/\1/p')
     v=silent; [ "$rc" = 1 ] && v=CAUGHT; [ "$rc" = 2 ] && v=inconclusive
     echo "seeded $n $c $v"
